@@ -40,6 +40,8 @@ Driver for C06.  Op lines (integer tokens):
         events dump = for cluster nodes 1 and 2: `n<k> pods u…` / `n<k> cpus (c ref excl)…` / `n<k> res (cell amt)…`
   fresh                                                   (a node name without ledger entry: the ledger is empty; no output)
   updq <uid> <excl> <nc> cpu… <nn> (cell amt)…            (as upd, no output: the ledger cannot be read while goroutines run)
+  eupd <node> <uid> <excl> <nc> cpu… <nn> (cell amt)…     -> events dump   (resourceManager.Update on that cluster node: Reserve)
+  erel <node> <uid>                                       -> events dump   (resourceManager.Release: Unreserve)
   esel <node>                                             (continue with the ledger of that cluster node: alloc / commit / dump)
 ledger dump = `pods u…` / `cpus (c ref excl)…` / `res (cell amt)…` (non-zero) / `avail c…`,
 every list sorted by key.  All amounts in milli-units.
@@ -288,6 +290,19 @@ def runLine (c : Ctx) (line : String) : Ctx × List String :=
         match parseEvent xs with
         | some e => let c' := { c with M := handle c.M e }; (c', dumpEvents c'.M)
         | none => (c, ["bad-op"])
+      | "eupd" =>
+        match xs with
+        | n :: rest =>
+          match parsePod rest with
+          | some p => if n < 0 then (c, ["bad-op"]) else
+            let c' := { c with M := c.M.apply (.update n.toNat p) }; (c', dumpEvents c'.M)
+          | none => (c, ["bad-op"])
+        | _ => (c, ["bad-op"])
+      | "erel" =>
+        match xs with
+        | [n, u] => if n < 0 || u < 0 then (c, ["bad-op"]) else
+          let c' := { c with M := c.M.apply (.release n.toNat u.toNat) }; (c', dumpEvents c'.M)
+        | _ => (c, ["bad-op"])
       | "esel" =>
         match xs with
         | [n] => if n < 0 then (c, ["bad-op"]) else ({ c with L := c.M.L n.toNat, last := none }, [])
